@@ -20,9 +20,9 @@ RULE = ("stratified + seeded random (configuration, sample) pairs, parameters ov
 REQUIRED = ["range_checked:fixed_alternative_mean", "range_checked:shrink_trunc", "range_checked:optimal_comparison",
             "range_checked:fixed_bet", "range_checked:agrapa", "strictly_above_mu_checked", "sign_entries_checked",
             "one_step_extensions", "regime:fixed_alternative_impossible", "regime:margin_below_rate", "regime:optimal_comparison_u_le_1",
-            "stratum:cap_binds_at_the_default_scale_then_zero", "stratum:very_small_null_mean", "bets_equal_to_the_cap_at_the_default_scale", "configurations_whose_bound_is_not_a_dyadic_rational"]
-ASSUMPTIONS = ["mu_j recomputed by an independent loop; 'mu_j < u' for the strict clause means mu_j < u(1-1e-6), the "
-               "tolerance the tests themselves use for mu_j = u", "fixed_bet's lambda is the user's; lambda <= 1/u is "
+            "stratum:cap_binds_at_the_default_scale_then_zero", "stratum:very_small_null_mean", "stratum:null_mean_just_below_u", "bets_equal_to_the_cap_at_the_default_scale", "configurations_whose_bound_is_not_a_dyadic_rational"]
+ASSUMPTIONS = ["mu_j recomputed by an independent loop; 'mu_j < u' for the strict clause means mu_j < u(1 - 4 eps): the "
+               "estimate is capped at u(1 - eps), so nothing can be strictly above a mean within an ulp or two of u", "fixed_bet's lambda is the user's; lambda <= 1/u is "
                "generated (the C01 quantifier)", "optimal_comparison mostly with u > 1 (comparison audits), u <= 1 in 20 % of its cases"]
 N_CASES = {"quick": 128000, "thorough": 1200000}
 RANGE_COMBOS = [c for c in nn.COMBOS if c[1] or c[2]] + [("wald_sprt", None, None), ("kaplan_kolmogorov", None, None)]
@@ -49,6 +49,23 @@ def runs_sample(rng, cfg):
 def run_shard(spec, rec):
     rng = random.Random(f"c13-{spec['seed']}-{spec['shard']}")
     for i in range(spec["n"]):
+        if i % 16 == 13:
+            # the null conditional mean climbs to just below u (within 1e-6, the band in which the tests set terms aside) but
+            # stays below it: N/2 tiny positive draws at t = u/2.  "Strictly above mu_j wherever mu_j < u" is about the
+            # estimator, whatever the test does with the term afterwards
+            cfg = nn.gen_cfg(rng, combo=("alpha_mart", "shrink_trunc", None), finite=True, allow_not_random=False)
+            for k in ("u_built", "N_warm", "int_dtype", "reused", "kw_built"):
+                cfg.pop(k, None)
+            cfg["u"], cfg["t"] = 1.0, 0.5
+            cfg["N"] = 2 * rng.randint(3, 20)
+            if "eta" in cfg["kw"]:
+                cfg["kw"]["eta"] = rng.choice((0.625, 0.75, 0.875))
+            tiny = 2.0 ** -rng.choice((25, 30, 40))
+            x = [tiny] * (cfg["N"] // 2) + [rng.choice((tiny, 0.5))]
+            if nn.in_domain(cfg, x):
+                rec.count("stratum:null_mean_just_below_u")
+                run_case({"cfg": cfg, "x": x, "stratum": "null_mean_just_below_u"}, rec)
+            continue
         if i % 16 == 14:
             # a very small null mean (t = 2^-27 ... 2^-40; or what is left of N t after the early draws): 1/mu_j is huge, the
             # sample sits a little above mu_j with almost no variance, so the raw aGRAPA bet (~ 2/mu_j) needs its cap
@@ -156,7 +173,7 @@ def run_case(case, rec):
                             break
                     if name == "shrink_trunc":
                         for j in range(n):
-                            if mu[j] < u * (1 - 1e-6):
+                            if mu[j] < u * (1 - 4 * nn.EPS):   # (the estimate is capped at u(1 - eps): strictness is possible below that)
                                 rec.count("strictly_above_mu_checked")
                                 if not e[j] > mu[j]:
                                     rec.violation("c13.range", "shrink_trunc:not_above_mu",
